@@ -803,6 +803,9 @@ func retainDirect(spec *retainSpec) []run.Case {
 			}
 		}
 		if !ticked {
+			if attempt > 0 && len(cases) > 0 {
+				cases[0].Tags = append(cases[0].Tags, "clock-retry")
+			}
 			return cases
 		}
 		if len(cases) > 0 {
@@ -822,6 +825,9 @@ func retainE2ERun(spec *retainSpec) []run.Case {
 	for attempt := 0; attempt < retainRetries; attempt++ {
 		c, retry := retainE2EOnce(spec, e)
 		if !retry {
+			if attempt > 0 && len(c) > 0 {
+				c[0].Tags = append(c[0].Tags, "clock-retry")
+			}
 			return c
 		}
 	}
@@ -1133,7 +1139,12 @@ func retainGenSpec(r *gen.R) *retainSpec {
 	}
 	for _, a := range ages {
 		// counters "around the current one": Clean reads the clock after the k writes that build the log
-		spec.Hand = append(spec.Hand, retainHand{Age: a, Mode: []int{0, 0, 1, 1, 1, 2}[r.N(6)], Off: r.N(k+12) - 4})
+		// (ref, then k writes, then the reading before Clean: Clean itself sees ref.I + k + 2 if no other shard interferes)
+		hd := retainHand{Age: a, Mode: []int{0, 0, 1, 1, 1, 2}[r.N(6)], Off: r.N(k+12) - 4}
+		if hd.Mode == 1 && r.P(25) {
+			hd.Off = k + 2 + r.N(3)
+		}
+		spec.Hand = append(spec.Hand, hd)
 	}
 	spec.Cleans = []retainParams{p}
 	for r.P(35) && len(spec.Cleans) < 3 {
@@ -1239,6 +1250,7 @@ func retainCorpus() []run.Case {
 		// on the cutoff seconds; counters around now.I on the maxAge second
 		{Hand: retainHands(0, 6, 5, 5, 4, 3, 3, 2), Cleans: []retainParams{{0, 100, 3 * s, 5 * s}}, Tags: []string{"corpus:cutoff-seconds"}},
 		{Hand: retainHands(1, 5, 5, 5, 5, 5, 5), Cleans: []retainParams{{0, 100, 0, 5 * s}}, Tags: []string{"corpus:cutoff-counter"}},
+		{Hand: []retainHand{{5, 1, 4}, {5, 1, 5}, {5, 1, 6}}, Cleans: []retainParams{{0, 100, 0, 5 * s}}, Tags: []string{"corpus:cutoff-counter-exact"}},
 		{Hand: retainHands(2, 5, 5, 5), Cleans: []retainParams{{0, 100, 0, 5 * s}}, Tags: []string{"corpus:cutoff-counter-huge"}},
 		{Hand: retainHands(0, 2, 1, 1), Real: 2, Cleans: []retainParams{{0, 100, 1500 * time.Millisecond, 1500 * time.Millisecond}}, Tags: []string{"corpus:fractional"}},
 		// empty log, single event
